@@ -126,4 +126,39 @@ theorem mergeLocs_produced (lines : List Text) (ls : List Loc) (l : Loc)
     · cases h
   · cases h
 
+/-- The zero-width location at either endpoint of a produced location is produced. -/
+theorem produced_endpoint (lines : List Text) (a : Loc) (h : Produced lines a) (e : End) :
+    Produced lines ⟨(a.pos e).1, (a.pos e).2, (a.pos e).1, (a.pos e).2, false⟩ := by
+  induction h with
+  | tok ln off len line h1 h2 h3 =>
+    cases e with
+    | start => exact Produced.tok ln off 0 line h1 h2 (by omega)
+    | stop =>
+      have := Produced.tok (lines := lines) ln (off + len) 0 line h1 h2 (by omega)
+      simpa [tokLoc, Loc.pos] using this
+  | eof => cases e <;> exact Produced.eof
+  | merge a b syn _ _ _ iha ihb =>
+    cases e with
+    | start => exact iha
+    | stop => exact ihb
+
+theorem spanLoc_produced (lines : List Text) (a b : Loc) (ea eb : End) (l : Loc)
+    (ha : Produced lines a) (hb : Produced lines b) (h : spanLoc a ea b eb = .ok l) :
+    Produced lines l := by
+  unfold spanLoc mkLoc at h
+  split at h
+  · rename_i hc
+    simp only [Bool.and_eq_true] at hc
+    simp only [Except.ok.injEq] at h
+    subst h
+    exact Produced.merge _ _ false (produced_endpoint lines a ha ea) (produced_endpoint lines b hb eb) hc.1
+  · cases h
+
+theorem produced_line_pos (lines : List Text) (a : Loc) (h : Produced lines a) :
+    a.sl ≠ 0 ∧ a.el ≠ 0 := by
+  obtain ⟨hs, he, _⟩ := produced_inFile lines a h
+  constructor
+  · rcases hs with ⟨_, h1, _⟩ | ⟨h1, _⟩ <;> omega
+  · rcases he with ⟨_, h1, _⟩ | ⟨h1, _⟩ <;> omega
+
 end Emboss.Pipeline
